@@ -38,18 +38,18 @@ def main():
         n = int(re.search(r"-s(\d+)$", sid).group(1))
         c14 = sid.startswith("C14")
         if c14:
-            return 1 if n <= 2 else 2 if n <= 5 else 3 if n <= 7 else 4 if n <= 9 else 5 if n <= 11 else 6
-        return 1 if n <= 2 else 2 if n <= 4 else 3 if n <= 6 else 4 if n <= 8 else 5 if n <= 10 else 6
+            return 1 if n <= 2 else 2 if n <= 5 else 3 if n <= 7 else 4 if n <= 9 else 5 if n <= 11 else 6 if n <= 13 else 7
+        return 1 if n <= 2 else 2 if n <= 4 else 3 if n <= 6 else 4 if n <= 8 else 5 if n <= 10 else 6 if n <= 12 else 7
 
     print("#### Seeded changes by round\n")
     print("| round | changes | caught on first run | caught now | not caught now |")
     print("|---|---|---|---|---|")
-    for k in range(1, 7):
+    for k in range(1, 8):
         rr = [r for r in rows if rnd(r["id"]) == k]
         nc = [r["id"] for r in rr if not r.get("caught_now")]
         print("| %d | %d | %d | %d | %s |" % (k, len(rr), sum(1 for r in rr if r.get("caught_first_run")), sum(1 for r in rr if r.get("caught_now")), ", ".join(nc) or "-"))
     print()
-    print("#### Rounds 3-6 in detail\n")
+    print("#### Rounds 3-7 in detail\n")
     print("| id | what it needs to manifest (short) | first run | now | signature that catches it |")
     print("|---|---|---|---|---|")
     for r in rows:
